@@ -422,6 +422,12 @@ func resetBefore(v ssa.Value) bool {
 			if bu, ok := y.Call.Value.(*ssa.Builtin); ok && bu.Name() == "append" {
 				return rec(y.Call.Args[0])
 			}
+			// a helper that only appends to one of its parameters (appendPadded(dst, …)): as that argument
+			if g := y.Call.StaticCallee(); g != nil && g.Blocks != nil {
+				if i := appendRootParam(g, 0); i >= 0 && i < len(y.Call.Args) {
+					return rec(y.Call.Args[i])
+				}
+			}
 			return false
 		case *ssa.UnOp:
 			// load from a local cell: every store into the cell must be reset
@@ -906,4 +912,66 @@ func dedupInstrs(in []ssa.Instruction) []ssa.Instruction {
 		}
 	}
 	return out
+}
+
+// appendRootParam: the index of the parameter that every result of g extends by appends only (the result is that
+// parameter followed by appended data), or -1. g must return one slice.
+func appendRootParam(g *ssa.Function, depth int) int {
+	if g == nil || g.Blocks == nil || depth > 2 || g.Signature.Results().Len() != 1 {
+		return -1
+	}
+	if _, isSlice := g.Signature.Results().At(0).Type().Underlying().(*types.Slice); !isSlice {
+		return -1
+	}
+	seen := map[ssa.Value]bool{}
+	var root func(v ssa.Value) int
+	root = func(v ssa.Value) int {
+		if seen[v] {
+			return -2 // a cycle adds nothing
+		}
+		seen[v] = true
+		switch y := v.(type) {
+		case *ssa.Parameter:
+			for i, p := range g.Params {
+				if p == y {
+					return i
+				}
+			}
+		case *ssa.Phi:
+			r := -2
+			for _, e := range y.Edges {
+				k := root(e)
+				switch {
+				case k == -2:
+				case k == -1 || (r >= 0 && k != r):
+					return -1
+				default:
+					r = k
+				}
+			}
+			return r
+		case *ssa.Call:
+			if bu, ok := y.Call.Value.(*ssa.Builtin); ok && bu.Name() == "append" {
+				return root(y.Call.Args[0])
+			}
+			if h := y.Call.StaticCallee(); h != nil && h != g {
+				if i := appendRootParam(h, depth+1); i >= 0 && i < len(y.Call.Args) {
+					return root(y.Call.Args[i])
+				}
+			}
+		}
+		return -1
+	}
+	res := -2
+	for _, r := range Returns(g) {
+		k := root(r.Results[0])
+		if k < 0 || (res >= 0 && k != res) {
+			return -1
+		}
+		res = k
+	}
+	if res < 0 {
+		return -1
+	}
+	return res
 }
